@@ -245,6 +245,7 @@ def f_docs(sections):
                 args_thorough=("--count", "600", "--sections", sections))
 
 
+f_markdown = f_rt("markdown", "markdown", args_quick=("quick",), args_thorough=("thorough",))
 f_matcher = f_rt("matcher", "matcher", args_quick=("--bound", "2"), args_thorough=("--bound", "3"))
 f_traces = f_rt("parser_traces", "parser-traces", bounded=True, args_quick=("--bound", "3"),
                 args_thorough=("--bound", "4", "--time-limit", "1500"))
@@ -269,7 +270,7 @@ PROPS = {
     "C16": dict(finite=[f_docs("layout,insertion,errors")]),
     "C17": dict(finite=[f_corpus(["source", "ast", "pickles", "errors"], "events"), f_docs("stream,layout")]),
     "C18": dict(finite=[f_table_extraction, f_build_once, f_lookahead_targets, f_corpus(["tokens"], "tokens"), f_traces]),
-    "C19": dict(finite=[]),
+    "C19": dict(finite=[f_markdown]),
 }
 
 
